@@ -1,9 +1,9 @@
 SPECIFICATION Spec
 CONSTANTS
-  MaxIn = 3
-  MaxVal = 1
-  MaxOut = 5
-  OffR = 5
-  Z3Idx = {2, 5}
+  MaxIn = 4
+  MaxVal = 2
+  MaxOut = 8
+  OffR = 7
+  Z3Idx = {1, 2, 3, 5, 6, 7}
 INVARIANTS InvWhole InvMiddle InvSum InvCom InvUniform InvShift InvRelabel InvSeparable InvSum3
 CHECK_DEADLOCK FALSE
